@@ -73,6 +73,8 @@ type Rig struct {
 	Merged   *merger.MergeResult
 	PlanCnt  *int64
 	planner  planner.Planner
+	Upstreams []*fake.WSUpstream
+	Server    *httptest.Server
 }
 
 type exactIntrospector struct{ r *Rig }
